@@ -54,15 +54,22 @@ Proof.
       assert (Sv : saved r = Some true) by (destruct (q_acked _ _ _ _ _ Q Ha) as [E|E]; [eapply jK2; eauto|eapply jK3; eauto]).
       pose proof (jK0 _ J p r Hp Sv) as Ps. destruct (q_post _ _ _ _ _ Q Ps) as (_ & E & _). congruence.
     - rewrite Hoth in Hq by exact Hne. eapply jK2; eauto. }
+  (* the update-lock name keeps denoting the inode every process opened *)
+  assert (U0' : forall q r0 i, procs s' q = Some r0 -> ph r0 = PUpd (Some i) -> names (sfs s') Side = Some i).
+  { intros q r0 i Hq Hph. destruct (N.eq_dec q p) as [->|Hne].
+    - rewrite Hp' in Hq. inversion Hq; subst r0. destruct (q_upd _ _ _ _ _ Q i Hph) as [E|(_ & -> & ->)].
+      + eapply eff_side; eauto. eapply jU0; eauto.
+      + apply open_create_names.
+    - rewrite Hoth in Hq by exact Hne. eapply eff_side; eauto. eapply jU0; eauto. }
   (* the side-car file stays, the update lock stays with its holder *)
   assert (U1' : forall q r0 i, procs s' q = Some r0 -> uh r0 = Some i -> names (sfs s') Side = Some i /\ lock (sfs s') i = Excl q).
   { intros q r0 i Hq Hu. destruct (N.eq_dec q p) as [->|Hne].
     - rewrite Hp' in Hq. inversion Hq; subst r0.
-      destruct (q_uh _ _ _ _ _ Q) as [[E Hnr]|[(_ & j & Hs & Hl & E)|(ok & _ & E & _)]].
+      destruct (q_uh _ _ _ _ _ Q) as [[E Hnr]|[(j & Hphj & Hl & E)|(ok & _ & E & _)]].
       + rewrite E in Hu. destruct (jU1 _ J p r i Hp Hu) as [A B]. split; [eapply eff_side; eauto|].
         apply (step_lock_keep _ _ _ _ _ _ H Hp B); [eapply fE; eauto|]. right. split; [exact Hnr|].
         intros Hw. eapply (fC _ _ F Side i A); [discriminate|]. eapply jWH; eauto.
-      + rewrite E in Hu. inversion Hu; subst j. split; [eapply eff_side; eauto|]. eapply try_lock_ex_spec; eauto.
+      + rewrite E in Hu. inversion Hu; subst j. split; [eapply eff_side; eauto; eapply jU0; eauto|]. eapply try_lock_ex_spec; eauto.
       + congruence.
     - rewrite Hoth in Hq by exact Hne. destruct (jU1 _ J q r0 i Hq Hu) as [A B]. split; [eapply eff_side; eauto|].
       apply (step_lock_keep _ _ _ _ _ _ H Hp B); [eapply fE; eauto|]. left. exact Hne. }
@@ -192,4 +199,26 @@ Proof.
   destruct (jVS _ J q b) as (u0 & v0 & ->); [rewrite Hv; left; reflexivity|].
   exists (apply_upd u0 v0). unfold final_value. rewrite T, parse_ser. split; [reflexivity|].
   unfold curval in Hincl. rewrite T in Hincl. rewrite curval_rename in Hincl. apply Hincl. cbn. apply in_or_app. right. left. reflexivity.
+Qed.
+
+(* the name <file>.lock denotes, at every instant of every schedule, the very inode that each
+   process opened (and possibly locked): it is never unbound or rebound *)
+Lemma update_lock_name_stable : forall prior n l sched q r i,
+  Forall (fun pc => good_cmd (snd pc)) l ->
+  let s := exec (init_sys prior n l) sched in
+  procs s q = Some r -> (ph r = PUpd (Some i) \/ uh r = Some i) -> names (sfs s) Side = Some i.
+Proof.
+  intros prior n l sched q r i G s Hq Hor.
+  pose proof (exec_inv2 prior sched _ (init_inv prior n l) (init_inv2 prior n l G)) as J. fold s in J.
+  destruct Hor as [E|E]; [eapply jU0; eauto|eapply jU1; eauto].
+Qed.
+
+Lemma update_lock_exclusive_sched : forall prior n l sched q q' r r',
+  Forall (fun pc => good_cmd (snd pc)) l ->
+  let s := exec (init_sys prior n l) sched in
+  procs s q = Some r -> procs s q' = Some r' -> uh r <> None -> uh r' <> None -> q = q'.
+Proof.
+  intros prior n l sched q q' r r' G s Hq Hq' Hu Hu'.
+  pose proof (exec_inv2 prior sched _ (init_inv prior n l) (init_inv2 prior n l G)) as J. fold s in J.
+  eapply excl; eauto.
 Qed.
